@@ -7,3 +7,5 @@ def check(rep, tier):
     rep.run(rules_complex.run, rep, tier)
     from contracts import rules_numeric
     rep.run(rules_numeric.run, rep, tier, only_complex=True)
+    from contracts import rules_numeric as _rn9
+    rep.run(_rn9.run_space_special, rep)
